@@ -85,6 +85,9 @@ TEMPLATES = [
     "[1, 2].reduce(a, v, a + match A { case int : v, case _ : 100 }, 0)", "{'a': 1}.map(k, match A { case 1 : k, case _ : 'z' })",
     "[[1], [2]].map(v, v.map(w, match A { case 1 : w, case _ : 0 }))", "[1, 2].map(v, [match A { case 1 : v }].size())",
     "size([1].map(v, match [A] { case list : 1, case _ : 2 }))", "[3].map(v, match A + v { case 4 : 'y', case _ : 'n' })[0]",
+    # a constant operand of || / && next to a value that is not a boolean: the result is its truthiness, not the value
+    "false || A", "true && A", "[false || A]", "(true && A) == true", "false || [A]", "true && {'k': A}", "false || (true && A)",
+    "(false || A) ? 'y' : 'n'", "size([true && A, false || A])", "false || false || A", "true && true && A", "false || A || false",
     # a field whose name is also a function, a macro or a type: the folder reads the entry, and so must the VM
     "{'size': A, 'b': 1}.size", "{'filter': A}.filter", "{'map': 1, 'a': A}.map + A", "{'min': A, 'max': 5}.max", "{'has': A}.has",
     "{'int': A}.int", "{'contains': [A]}.contains[0]", "{'size': 3, 'b': A}.size", "{'all': A, 'exists': 2}.exists",
@@ -162,6 +165,14 @@ def run(chk):
         tgroups.append((len(cases), srcs))
         for s in srcs:
             cases.append(evalsrc_case(s, binds=STD_BINDS + [("x1", vi(1))], ufuncs=None if t in TEMPLATES_UF else []))
+    # a boolean constant on the left of || / && next to a value that is not a boolean (the constant as a literal and as a
+    # variable bound to it): the result is the truthiness of the right operand, not the operand itself
+    for t in ["B0 || 5", "B1 && 5", "B0 || [1]", "B1 && 'a'", "(B0 || 5) == true", "B0 || B0 || 7", "B1 && B1 && 0.5", "[B0 || 2, B1 && 3]",
+              "B0 || {'k': 1}", "B1 && 1u", "(B1 && 5) ? 'y' : 'n'", "B0 || (B1 && 9)", "size([B0 || 'x'])", "B0 || 0", "B1 && ''", "B0 || i1", "B1 && s1"]:
+        srcs = [t.replace("B0", "false").replace("B1", "true"), t.replace("B0", "b0").replace("B1", "b1")]
+        tgroups.append((len(cases), srcs))
+        for s in srcs:
+            cases.append(evalsrc_case(s, binds=STD_BINDS, ufuncs=[]))
     for t in TEMPLATES_CLOCK:
         srcs = [t.replace("N", "tv9"), t.replace("N", "now()"), t.replace("N", "timestamp()")]
         if "getFullYear" not in t:
